@@ -375,7 +375,7 @@ pub fn run(ctx: &mut Ctx) -> Result<(), Violation> {
         "release build with overflow-checks = true so arithmetic overflow panics".into(),
         "cost parameters bounded (m <= 64 KiB, t <= 3) whenever a string can reach Argon2, as the property states".into(),
     ];
-    let fills = ctx.tier.pick(2u64, 16);
+    let fills = ctx.tier.pick(6u64, 24);
     let n_len = 200usize;
     let mut entries: Vec<Entry> = AEAD_ENTRIES.iter().map(|o| Entry::Aead(*o)).collect();
     entries.extend([
@@ -489,7 +489,7 @@ pub fn run(ctx: &mut Ctx) -> Result<(), Violation> {
             return Err(Violation::new("C04", "harness", format!("harness: valid libsodium string {v} not verified by PwHash"), serde_json::to_value(&c).unwrap()));
         }
     }
-    let n = ctx.tier.pick(3000u32, 60_000);
+    let n = ctx.tier.pick(24_000u32, 200_000);
     let shards: Vec<u64> = (0..ctx.threads as u64).collect();
     let per = n / ctx.threads.max(1) as u32 + 1;
     ctx.par_each(&shards, |_, &sh, ev| {
